@@ -134,6 +134,8 @@ def split_script(lines):
             items += [("ents", "", x) for x in t[1:]]
         elif t[0] == "raised":
             items += [("raised", "", x) for x in t[1:]]
+        elif t[0] == "killed":
+            items += [("killed", "", x) for x in t[1:]]
         elif t[0] == "store":
             items.append(("storehdr", t[1] + " " + t[2], ""))
             items += [("store", t[1] + " " + t[2], x) for x in t[3:]]
@@ -145,12 +147,14 @@ def split_script(lines):
 
 
 def rebuild(items):
-    ents, raised, stores, bits, ops = [], [], {}, {}, []
+    ents, raised, killed, stores, bits, ops = [], [], [], {}, {}, []
     for kind, key, val in items:
         if kind == "ents":
             ents.append(val)
         elif kind == "raised":
             raised.append(val)
+        elif kind == "killed":
+            killed.append(val)
         elif kind == "storehdr":
             stores.setdefault(key, [])
         elif kind == "store":
@@ -165,6 +169,9 @@ def rebuild(items):
     if raised:
         # entities created atomically and not yet merged; the harness drops entries that are not in `ents`
         out.append("raised " + " ".join(raised))
+    if killed:
+        # entities with a pending deletion (Entities::delete called, no maintain yet); subset of `ents`
+        out.append("killed " + " ".join(killed))
     for key in sorted(stores, key=lambda k: int(k.split()[0])):
         out.append(("store " + key + " " + " ".join(stores[key])).rstrip())
     for key in sorted(bits, key=int):
@@ -389,7 +396,8 @@ def check(prop, tier, seed, t0):
         "rule": "evaluations = join ops of this property's modes executed on the real crate and replayed through the Lean model "
                 "(Level-A join + Level-B BitIter/BitProducer) and the spec monitor; cases = random worlds (16 stores of 8 kinds, "
                 "4 raw bit sets, entities with generations; in half of the worlds 1..30% of the entities are `raised`: created atomically, "
-                "not yet merged by maintain) drawn per index class; a case is non-trivial when some join of arity >= 2 "
+                "not yet merged by maintain; in a third of the worlds 1..20% have a pending deletion: Entities::delete called, "
+                "no maintain yet) drawn per index class; a case is non-trivial when some join of arity >= 2 "
                 "delivered a non-empty result; distinct = distinct case scripts (hash), counted by the driver",
         "traces_validated_against_impl": stats.get("cases", 0),
         "transcript_lines": stats.get("lines", 0),
@@ -400,6 +408,7 @@ def check(prop, tier, seed, t0):
         "boundary_hits": {k: stats.get(k, 0) for k in ("cross64", "cross4096", "cross262144", "adj64", "adj4096", "adj262144")},
         "max_index": stats.get("max_index", 0),
         "raised_entities": {k: stats.get(k, 0) for k in ("raised", "raised_cases", "raised_gen2", "raised_visits", "raised_ops")},
+        "pending_deletions": {k: stats.get(k, 0) for k in ("killed", "killed_cases", "killed_visits", "killed_ops")},
         "h3_hook": "present" if h3 else "absent",
         "h3_note": h3_note,
         "runs": [f"{r['label']} ({r['wall']:.1f}s)" for r in results],
